@@ -20,6 +20,7 @@ type c02Node struct {
 	kind     int // 0 span, 1 single, 2 complement, 3 join
 	a, b     int // 1-based inclusive
 	p5, p3   bool
+	wrap     bool // complement assembled as a wrapper node
 	children []*c02Node
 }
 
@@ -116,6 +117,11 @@ func (n *c02Node) toLoc() poly.Location {
 		return poly.Location{Start: n.a - 1, End: n.a}
 	case 2:
 		l := n.children[0].toLoc()
+		if n.wrap {
+			// complement written as a wrapper around its operand (a shape GetSequence and the
+			// writer accept as well)
+			return poly.Location{Complement: true, SubLocations: []poly.Location{l}}
+		}
 		l.Complement = true
 		return l
 	}
@@ -239,7 +245,7 @@ func c02Tree(L int) *c02Node {
 	case 0:
 		return c02Leaf(L)
 	case 1:
-		return &c02Node{kind: 2, children: []*c02Node{c02Leaf(L)}}
+		return &c02Node{kind: 2, children: []*c02Node{c02Leaf(L)}, wrap: vChoice(2) == 1}
 	case 2:
 		k := 2 + vChoice(vTier(2, 3))
 		j := &c02Node{kind: 3}
